@@ -47,11 +47,17 @@ func newSided(rs *Resid, fn *ast.FuncDecl) *sided {
 			}
 		}
 	}
-	if len(names) < 2 {
+	if len(names) < 1 {
 		return nil
 	}
-	s.A, s.B = names[0], names[1]
-	s.roots = map[string]bool{s.A: true, s.B: true}
+	s.A = names[0]
+	s.roots = map[string]bool{s.A: true}
+	if len(names) >= 2 {
+		s.B = names[1]
+		s.roots[s.B] = true
+	} else {
+		s.body = fn.Body
+	}
 	s.defs = localDefs(s.body)
 	return s
 }
